@@ -135,7 +135,7 @@ static void run_case(const std::vector<std::string>& lines, char* argv0)
     char a4[]    = "--log=no_loc";
     char* argv[] = {argv0, a1, a3, a4, nullptr};
     int argc     = 4;
-    alarm(300);
+    alarm(3000); // safety net only (wall clock: the machine may be heavily loaded)
     sg4::Engine e(&argc, argv);
     World w;
     build(w, lines);
